@@ -369,15 +369,26 @@ def input_range(prog, res):
     res.check(len(ov) == 2 and len(mm) == 1 and len(wr) == 1 and len(ldm) == 2, "T3.input-range", "shape", f.loc,
               "2 overlap tests, 2 LDM waits, 1 prefix move, 1 buffer hand-out",
               "shape changed: overlap tests=%d ldm waits=%d memmove=%d inBuff.buffer writes=%d" % (len(ov), len(ldm), len(mm), len(wr)))
-    if len(ov) == 2 and mm and wr and ldm:
+    if mm and wr:
         # each sink is unreachable if the true (overlapped) edges were the only way on; i.e.
         # cut the *false* edges: nothing behind them may be reached
         for name, sinks in (("memmove-prefix", mm), ("inBuff.buffer=", wr)):
             # the test protecting a sink: all paths entry->sink take some false edge
-            ok = f.must_pass(via_edges={(bid, fl) for bid, t, fl in ov}, targets=sinks)
-            # and the overlapped edge never reaches the sink
+            # the test protecting a sink is the LAST overlap test before it: cut, for each sink, the
+            # not-overlapped edges; additionally no overlap test may be followed by the sink on its
+            # overlapped edge.  A sink preceded only by a test made for ANOTHER range is not protected:
+            # each sink must have its own dominating test after the last write of the tested buffer.
+            ok = bool(ov) and f.must_pass(via_edges={(bid, fl) for bid, t, fl in ov}, targets=sinks)
             reach_t = f.flow([(t, 0) for bid, t, fl in ov])
             ok = ok and not any(s in reach_t for s in sinks)
+            # the range handed to the sink (buffer.start/capacity writes) is tested after it was set:
+            # between the last assignment of `buffer` fields and the sink there is an overlap test
+            setb = f.find_roots(lambda x: x.get("k") == "asg" and strip_casts(x["lhs"]).get("rec") == "buffer_t")
+            for sk in sinks:
+                before = [r0 for r0 in setb if sk in f.flow([(r0[0], r0[1] + 1)])]
+                if before:
+                    ok = ok and f.must_pass(via_edges={(bid, fl) for bid, t, fl in ov},
+                                            starts=[(b0, i0 + 1) for b0, i0 in before], targets=[sk])
             res.check(ok, "T3.input-range", name + ":not-in-use", f.loc,
                       "reached only through the not-overlapped edge of ZSTDMT_isOverlapped(buffer, inUse)",
                       "input space can be reused while a job still reads it")
